@@ -48,6 +48,8 @@ QUICK_TABLE = [
     ('fourati', {'gain': 1.0, 'tail_rate': 3.0}, 300, None),      # safety only, see DESIGN.md C13
     ('roleq', {'frame': 'NED'}, 300, 1e-3),
     ('roleq', {'frame': 'ENU'}, 300, 1e-3),
+    ('roleq', {'frame': 'NED', 'weights': [1.0, 0.0]}, 200, None),     # one sensor switched off by its weight: heading or tilt
+    ('roleq', {'frame': 'NED', 'weights': [0.0, 1.0]}, 200, None),     # unobservable, so safety only
     ('fkf', {}, 1500, 0.05),
     ('complementary_imu', {'gain': 0.9}, 200, 1e-3),
     ('complementary_marg', {'gain': 0.9}, 200, 1e-3),
@@ -81,6 +83,27 @@ def base_world(seed, tail, dip=60.0, noise=1e-4, tail_rate=0.2):
 
 FAULT_ZONE_END = 300        # every fault ends before the tail starts (30+120+120+30)
 STARTS = {'first': 1, 'mid-motion': 90, 'after-kick': 151, 'late': None}
+
+
+def scalar_config(obj):
+    """Scalar public attributes of a filter object (gains, periods, flags, frame): its configuration."""
+    if obj is None:
+        return None
+    out = {}
+    for k, val in vars(obj).items():
+        if k.startswith('_'):
+            continue
+        if isinstance(val, (bool, int, float, str)) or val is None:
+            out[k] = val
+        elif isinstance(val, np.generic) and np.ndim(val) == 0:
+            out[k] = val.item()
+    return out
+
+
+def same_scalar(a, b):
+    if isinstance(a, float) and isinstance(b, float):
+        return a == b or (math.isnan(a) and math.isnan(b)) or abs(a - b) <= 1e-9 * max(abs(a), abs(b))
+    return a == b
 
 
 class Check:
@@ -177,6 +200,10 @@ class Check:
         scn = self._scenario(kind, params, tail, tol, arch, faults, wseed=seed % 50, extra_faults=extra)
         scn['world']['dip'] = rnd.choice([60.0, -40.0, 10.0, 30.0])
         if rnd.random() < 0.3:
+            # a constant gyroscope bias: the filter has to hold the attitude against it with its gain
+            b = rnd.uniform(0.01, 0.06)
+            scn['world']['gyr_bias'] = [b * x for x in W.rand_unit(rnd)]
+        if rnd.random() < 0.3:
             # the period is given per call to a data-less instance built with the class default (10 ms); batch gets Dt
             scn['params']['dt_route'] = 'call'
             scn['world']['dt'] = 0.02
@@ -207,9 +234,12 @@ class Check:
                 except Exception:       # noqa: BLE001
                     extra = None
             if isinstance(res, np.ndarray):
+                self._last_obj = obj
                 return [res[k] for k in range(len(res))], 0, extra, None
+            self._last_obj = obj
             return res, 0, extra, None
         inst = kind.make(p, hist.dt, dip)
+        self._last_obj = inst
         tq = hist.truth[0]
         q = qm.qconj(tq) if kind.conj else tq.copy()
         out = [q.copy()]
@@ -270,14 +300,17 @@ class Check:
 
         np.random.seed(777)
         out_f, refusals, extra, crash_at = self._exec(kind, p, arch, hist, key, dip)
+        cfg_f = scalar_config(getattr(self, '_last_obj', None))
         ck = json.dumps([scn['kind'], scn['params'], arch, twin_spec], sort_keys=True)
-        out_t = _TWIN_CACHE.get(ck)
-        if out_t is None:
+        cached = _TWIN_CACHE.get(ck)
+        if cached is None:
             np.random.seed(777)
             out_t, _, _, _ = self._exec(kind, p, arch, twin, key, dip)
+            cached = (out_t, scalar_config(getattr(self, '_last_obj', None)))
             if len(_TWIN_CACHE) > 64:
                 _TWIN_CACHE.clear()
-            _TWIN_CACHE[ck] = out_t
+            _TWIN_CACHE[ck] = cached
+        out_t, cfg_t = cached
         stats['refusals'] = refusals
         trivial = first is None
         # a filter that is already invalid on the history *without* dropouts is C03's subject, not C13's
@@ -332,6 +365,13 @@ class Check:
                         viol.append(v(CM.defect_class(d), k, f'tick {k} ({k - start} after the first zeroed sample): output {d}: {np.array2string(np.asarray(o), precision=6)}'))
                         usable = False
                         break
+        # hidden mode switches: at the end of the history the filter object must carry the same scalar configuration
+        # (gains, periods, flags) as the object that processed the history without dropouts
+        if cfg_f is not None and cfg_t is not None and not trivial and not isinstance(out_f, (K.Refusal, K.Crash)) and crash_at is None:
+            diff = sorted(k for k in set(cfg_f) | set(cfg_t) if not same_scalar(cfg_f.get(k), cfg_t.get(k)))
+            stats['config_compared'] = 1
+            if diff:
+                viol.append(v('config-changed', None, f'after the dropout the filter object differs from its dropout-free twin in {[(k, cfg_t.get(k), cfg_f.get(k)) for k in diff][:4]}'))
         # recovery against the twin
         if usable and not trivial and isinstance(out_t, list) and len(out_t) == hist.n and len(out_f) == hist.n:
             ok_twin = all(isinstance(o, np.ndarray) and CM.attitude_defect(o, tol=1e-6) is None for o in out_t[-WINDOW:])
